@@ -173,7 +173,34 @@ def reduced_purity(ctx, rule="C16.param-flow"):
     return n
 
 
+def quadrature_convention(ctx, rule="C16.param-flow"):
+    ctx.explain(f"{rule}: (quadrature ordering) BaseBosonicState stores its means / covariances interleaved (x1, p1, x2, p2, ...: quadratures "
+                "of mode m at 2m, 2m + 1); no method of the class offsets a mode index by the number of modes (m + N is the xxpp layout of "
+                "the Gaussian class).")
+    cls = ctx.tree.cls(ST, "BaseBosonicState")
+    n = 0
+    for name, f in sorted(cls.methods.items()):
+        mp = [p for p in f.params if p in ("modes", "mode")]
+        if not mp:
+            continue
+        n += 1
+        bad = None
+        for x in walk_no_nested(f.node):
+            if isinstance(x, ast.BinOp) and isinstance(x.op, ast.Add):
+                for a, b in ((x.left, x.right), (x.right, x.left)):
+                    if dotted(b) in ("self._modes", "self.num_modes") or isinstance(b, ast.Call) and dotted(b.func) == "len" and b.args and \
+                            dotted(b.args[0]) in ("self._modes",):
+                        da = derives(f.node, a)
+                        if set(mp) & da.params or any(dd.var in mp for dd in da.defs):
+                            bad = x
+        ctx.ob(rule, f.site, bad is None, "" if bad is None else f"`{ast.unparse(bad)[:50]}` addresses the p quadrature of a mode at m + N: "
+               "in the interleaved layout of this class that is the quadrature of another mode", role="interleaved-quadratures",
+               line=(bad.lineno if bad is not None else f.node.lineno))
+    return n
+
+
 def rules(ctx):
+    quadrature_convention(ctx)
     per_mode_order(ctx)
     reduced_purity(ctx)
     layout(ctx)
